@@ -16,10 +16,12 @@ META = {
                    "table) symbolic; then eval() + predict, and z3 proves mean and covariance equal to those of a freshly "
                    "constructed model holding the current parameters and data (same atoms). A stale cache is a term over "
                    "superseded atoms -> sat -> replay.",
-    "bounds": {"quick": "all histories of length <= 2 over 13 operations for the exact stub model n in {2,3}, m=2",
+    "bounds": {"quick": "all histories of length <= 2 over 13 operations for the exact stub model n in {2,3}, m=2; SGPR rig (6 operations) and "
+                        "variational rigs (whitened / unwhitened strategy, 7 operations: predict, train(), eval(), optimiser step, "
+                        "load_state_dict, prior-mode call, kl_divergence()) to the same length",
                "thorough": "all histories of length <= 3 "},
     "outside": ["direct parameter edits in eval mode (excluded by the property)", "histories longer than the bound",
-                "interpolation (KISS-GP) kernels and variational models", "rounding"],
+                "interpolation (KISS-GP) kernels; variational strategies other than the whitened / unwhitened ones", "rounding"],
     "assumptions": ["reals for floats", "an optimiser step / load_state_dict replaces every hyper-parameter, including the stub "
                     "kernel's Gram table, by fresh symbolic values", "stable_pinverse (QR) replaced by its contract in the fantasy op"],
     "exhaustive": True,
@@ -259,6 +261,112 @@ def history_sgpr(S, ops):
     S.term_hashes.add("sgpr:" + "-".join(ops))
 
 
+VAR_OPS = ["P", "T", "E", "O", "L", "R", "K"]
+
+
+def history_var(S, strat, ops):
+    """variational GP (real strategy, Cholesky q(u), stub kernel): the caches of the strategy (Cholesky factor of K_zz, prior
+       and variational distribution memos) must follow parameters through train()/eval(), optimiser steps, load_state_dict,
+       prior-mode calls and kl_divergence() calls"""
+    from gpytorch import variational as V
+    from .C14 import VGP, _make_dist
+    M, n = 2, 2
+    N = M + n
+    cls = {"variational": V.VariationalStrategy, "unwhitened": V.UnwhitenedVariationalStrategy}[strat]
+    jit = float(gpytorch.settings.variational_cholesky_jitter.value(torch.float64))
+    table = torch.zeros(N, N)
+    state = {"k": 0}
+
+    def new_table():
+        state["k"] += 1
+        Gs, Gc = S.factor("g%d" % state["k"], N)
+        with torch.no_grad():
+            table.copy_(Gc @ Gc.T - jit * torch.eye(N))
+        SH.put(table, Gs @ Gs.T - eye(N) * Sym.const(jit), check=True)
+
+    def build(tag):
+        d, _, _ = _make_dist(S, "cholesky", M, ())
+        mdl = VGP(cls, d, labels(0, M), table, make_mean("constant"))
+        declare_params(S, mdl.mean_module, tag + "mean_")
+        mdl.variational_strategy.variational_params_initialized.fill_(1)
+        return mdl
+
+    with S.mode():
+        model = build("p0_")
+        new_table()
+        X = labels(M, N)
+        model.eval()
+        for o in ops:
+            if o == "P":
+                out = model(X)
+                _ = out.mean, out.variance
+            elif o == "T":
+                model.train()
+            elif o == "E":
+                model.eval()
+            elif o == "O":
+                model.train()
+                _ = model(X).mean  # the forward pass of the step (training mode)
+                state["k"] += 1
+                with torch.no_grad():
+                    for nme, p in model.named_parameters():
+                        dlt = S.randn(*p.shape, scale=0.2) if p.dim() else S.randn(1, scale=0.2)[0]
+                        S.sym_tensor(dlt, "step%d_%s" % (state["k"], nme.replace(".", "_")))
+                        p.add_(torch.tril(dlt) if nme.endswith("chol_variational_covar") else dlt)
+                new_table()
+            elif o == "L":
+                state["k"] += 1
+                CTX.atoms = {a: v for a, v in CTX.atoms.items()}  # (names of the second distribution's atoms are fresh below)
+                other = _other(S, cls, M, table, state["k"])
+                model.load_state_dict(other.state_dict())
+                new_table()
+            elif o == "R":
+                _ = model(X, prior=True).mean
+            elif o == "K":
+                _ = model.variational_strategy.kl_divergence()
+        model.eval()
+        out = model(X)
+        mean_t, cov_t = out.mean, out.covariance_matrix
+        kl_t = model.variational_strategy.kl_divergence()
+        fresh = VGP(cls, V.CholeskyVariationalDistribution(M), labels(0, M), table, make_mean("constant"))
+        with torch.no_grad():
+            src = dict(model.named_parameters())
+            for nme, p in fresh.named_parameters():
+                p.copy_(src[nme])
+        fresh.variational_strategy.variational_params_initialized.fill_(1)
+        fresh.eval()
+        ref = fresh(X)
+        Mref, Cref = as_sym_arr(SH.get(ref.mean)), as_sym_arr(SH.get(ref.covariance_matrix))
+        Kref = as_sym_arr(SH.get(fresh.variational_strategy.kl_divergence()))
+    S.prove_eq(mean_t, Mref, "%s q(f) mean after history %s = fresh model" % (strat, "-".join(ops)))
+    S.prove_eq(cov_t, Cref, "%s q(f) covariance after history %s = fresh model" % (strat, "-".join(ops)))
+    S.prove_eq(kl_t, Kref, "%s KL after history %s = fresh model" % (strat, "-".join(ops)))
+    S.extra = {"states": 1 + len(ops), "transitions": len(ops) + 1}
+    S.term_hashes.add("var:%s:" % strat + "-".join(ops))
+
+
+def _other(S, cls, M, table, k):
+    """a second model of the same architecture whose every parameter is a fresh symbol (the state to be loaded)"""
+    from gpytorch import variational as V
+    from .C14 import VGP
+    d = V.CholeskyVariationalDistribution(M)
+    with torch.no_grad():
+        d.variational_mean.copy_(S.randn(M))
+        L = torch.tril(S.randn(M, M, scale=0.4))
+        L = L - torch.diag(torch.diagonal(L)) + torch.diag(S.rand(M, lo=0.6, hi=1.5))
+        d.chol_variational_covar.copy_(L)
+    S.sym_tensor(d.variational_mean, "ld%d_vm" % k)
+    Ls = S.sym_tensor(d.chol_variational_covar, "ld%d_vl" % k)
+    for i in range(M):
+        for j in range(i + 1, M):
+            Ls[i, j] = Sym.const(0.0)
+    SH.put(d.chol_variational_covar.data, Ls)
+    other = VGP(cls, d, labels(0, M), table, make_mean("constant"))
+    declare_params(S, other.mean_module, "ld%d_mean_" % k)
+    other.variational_strategy.variational_params_initialized.fill_(1)
+    return other
+
+
 def scenarios(tier, seed):
     out = []
     L = 2 if tier == "quick" else 3
@@ -275,4 +383,8 @@ def scenarios(tier, seed):
                     continue  # the final prediction would legitimately reuse the (still valid) kernel caches of the last
                     # prediction; the warm-cache route reaches equal terms that are not decided in time (not claimed)
             out.append({"sid": "sgpr:" + "-".join(ops), "fn": "history_sgpr", "params": {"ops": list(ops)}, "timeout_s": 300})
+    for strat in ("variational", "unwhitened"):
+        for l in range(0, L + 1):
+            for ops in itertools.product(VAR_OPS, repeat=l):
+                out.append({"sid": "var:%s:" % strat + ("-".join(ops) or "empty"), "fn": "history_var", "params": {"strat": strat, "ops": list(ops)}, "timeout_s": 300})
     return out
